@@ -36,6 +36,8 @@ def _count_nonzero(ev, call):
 def _vdot_factory(log):
     def vdot(ev, call):
         a, b = ev.ev(call.args[0]), ev.ev(call.args[1])
+        a = list(a.vals) if isinstance(a, Vec) else a
+        b = list(b.vals) if isinstance(b, Vec) else b
         if isinstance(b, Sym) and not isinstance(a, Sym):
             a, b = b, a
         if not isinstance(b, (list, tuple)):
@@ -53,18 +55,74 @@ def _vdot_factory(log):
     return vdot
 
 
+_WW = {}
+
+
 def _eval_where(f, pivots, others, scheme):
+    """The placement routine run on a real KwikSortRandom object (so that helpers it delegates to, overridden or not,
+    are the ones a real call reaches) with `count_nonzero` / `vdot` intercepted: the values handed to vdot are logged."""
+    from .datamodel import World
+    from ..engines.instances import ExternalFunc
+    from ..engines.abseval import AbsRaise, IndexOut
+    proj = f.module.project if hasattr(f.module, "project") else None
+    key = id(f.module)
+    if key not in _WW:
+        _WW.clear()
+        from ..loader import Project as _P
+        _WW[key] = None
+    w = _EVAL_WORLD[0]
     log = []
-    env = {"self": Sym("self"), f.param_names[1]: Vec(pivots), f.param_names[2]: Vec(others),
-           f.param_names[3]: scheme}
-    evl = Evaluator(env, funcs={"count_nonzero": _count_nonzero, "vdot": _vdot_factory(log)})
+    vd = _vdot_factory(log)
+
+    class _Call:            # the hooks are written for (evaluator, call node): adapt them to evaluated arguments
+        def __init__(self, args):
+            self.args = args
+            self.keywords = []
+
+    class _Ev:
+        @staticmethod
+        def ev(x):
+            return x
+    w.rt.externals["numpy.vdot"] = ExternalFunc(lambda a, kw, ev, node: vd(_Ev, _Call(a)))
     ret = None
     err = None
     try:
-        ret = evl.run(f.body_without_docstring())
+        ret = w.rt.call_method(_EVAL_WORLD[1], f.name, Vec(list(pivots)), Vec(list(others)),
+                               [s_ if isinstance(s_, Sym) else Vec(list(s_)) for s_ in scheme]
+                               if not all(isinstance(s_, Sym) for s_ in scheme) else list(scheme))
     except Unsupported as exc:
         err = exc
+    except AbsRaise as r:
+        err = Unsupported(f"raises {r.exc_name}", r.node)
     return ret, log, err
+
+
+_EVAL_WORLD = [None, None]
+
+
+def _install_world(proj, rnd):
+    from .datamodel import World
+    w = World(proj)
+    w.rt.max_steps = 200000
+    _EVAL_WORLD[0] = w
+    _EVAL_WORLD[1] = w.rt.new(rnd, [], {})
+
+
+def _definitional_decision(world, b, t):
+    """tie if cheapest (<=), else before if <= after; costs summed over the rankings of the world"""
+    before = sum(b[s] for s in world)
+    tied = sum(t[s] for s in world)
+    after = sum(b[spec.SIGMA[s]] for s in world)
+    return 0 if (tied <= before and tied <= after) else (-1 if before <= after else 1)
+
+
+NUMERIC_SCHEMES = [
+    [[0., 1., 1., 0., 1., 1.], [1., 1., 0., 1., 1., 0.]], [[0., 1., 1., 0., 0., 0.], [1., 1., 0., 0., 0., 0.]],
+    [[0., 1., 1., 0., 1., 0.], [1., 1., 0., 1., 1., 0.]], [[0., 1., .5, 0., 1., .5], [.5, .5, 0., .5, .5, 0.]],
+    [[0., 2., 1., 1., 3., 4.], [1., 1., 0., 2., 2., 5.]], [[0., 1., 1., 0., 0., 0.], [1., 1., 0., 1., 1., 0.]],
+    [[0., 1., .25, .5, 1., 2.], [.75, .75, 0., 2., 2., 1.]], [[0., 5., 2., 1., 1., 0.], [3., 3., 0., 1., 1., 7.]],
+    [[1., 1., 1., 1., 1., 1.], [1., 1., 1., 1., 1., 1.]], [[0., 1., 3., 0., 4., 0.5], [2., 2., 0., 3., 3., 0.25]],
+]
 
 
 def run(ctx) -> Result:
@@ -78,7 +136,8 @@ def run(ctx) -> Result:
     comp = proj.method(absc, "compute_consensus_rankings")
     res.saw(where, ks, piv, comp)
     HOOK_NAMES.update(pivot=piv.name, where=where.name, sort=ks.name)
-    res.rule("V1", "status-count vector and the three vdot costs equal the definitional costs (symbolic B, T)", 6)
+    res.rule("V1", "status-count vector and the three vdot costs equal the definitional costs (symbolic B, T); numeric "
+                   "placement decisions on several rankings", 7)
     res.rule("V2", "decision tree over the 13 weak orderings of (before, tied, after) per status", 6)
     res.rule("V3", "three-way partition and emission order around the pivot (27 sign assignments)", 1)
     res.rule("V4", "pivot drawn from the remaining elements; entry point wiring", 3)
@@ -87,6 +146,7 @@ def run(ctx) -> Result:
     def norm(v):
         return S.normalise_scheme_lin(v, enforced)
 
+    _install_world(proj, rnd)
     symscheme = [Sym("B"), Sym("T")]
     # worlds: lists of statuses of (other, pivot)
     worlds = [[s] for s in range(6)] + [list(p) for p in itertools.product(range(6), repeat=2)] + [[0, 3, 5], [1, 4, 2]]
@@ -109,8 +169,10 @@ def run(ctx) -> Result:
                     # matters and V2 / the end-to-end rule decide it; nothing to compare here
                     shortcuts.append(world)
                     continue
-                raise AnalysisError(f"{where.qualname}: expected three vdot costs, saw {len(log)}"
-                                    + (f" ({err})" if err else ""))
+                # the costs are not computed as three vdot products (vectorised, delegated ...): the numeric decisions
+                # below decide this world
+                shortcuts.append(world)
+                continue
             want = []
             for placement in ("before", "tied", "after"):
                 tot = Lin()
@@ -132,6 +194,34 @@ def run(ctx) -> Result:
             res.ok("V1", f"_where_should_it_be:status={spec.STATUS_NAMES[s]}", where.loc(),
                    f"costs are B[s], T[s], B[sigma(s)] summed over rankings in all {n_worlds} worlds")
     res.extra["v1_worlds"] = n_worlds
+    # numeric decisions on multi-ranking worlds (whatever the way the costs are computed): statuses repeated up to three
+    # times (a count that saturates or is mis-attributed changes a decision under some scheme)
+    multi = [[s] * k for s in range(6) for k in (2, 3)] + [list(p) for p in itertools.product(range(6), repeat=2)] + \
+        [[5, 5, 0], [5, 5, 1], [5, 5, 2], [3, 3, 4], [4, 4, 3], [2, 2, 0, 1], [5, 5, 5, 0, 2], [0, 1, 2, 3, 4, 5]]
+    bad = None
+    n_num = 0
+    for world in multi:
+        for reps in (0, 1):
+            others, pivots = [], []
+            for s in world:
+                rp = spec.REPRESENTATIVES[s]
+                po, pp = rp[min(reps, len(rp) - 1)]
+                others.append(po)
+                pivots.append(pp)
+            for b, t in NUMERIC_SCHEMES:
+                n_num += 1
+                ret, log, err = _eval_where(where, pivots, others, [list(b), list(t)])
+                if err is not None:
+                    raise AnalysisError(f"{where.qualname}: unsupported construct line "
+                                        f"{getattr(err.node, 'lineno', '?')}: {err}")
+                want = _definitional_decision(world, b, t)
+                if ret != want and bad is None:
+                    bad = (world, b, t, ret, want)
+    res.check(bad is None, "V1", "_where_should_it_be:decisions-on-several-rankings", where.loc(),
+              ok_detail=f"{n_num} (statuses of several rankings, scheme) worlds: the placement is the definitional one",
+              bad_detail=(f"rankings with statuses {[spec.STATUS_NAMES[x] for x in bad[0]]} of (other, pivot), scheme B={bad[1]} "
+                          f"T={bad[2]}: returns {bad[3]}, the summed costs give {bad[4]} (-1 before pivot, 0 tied, 1 after)")
+              if bad else "")
 
     # ------------------------------------------------------------------ V2
     for s in range(6):
@@ -269,6 +359,24 @@ def check_emission(res: Result, proj, rule: str):
             want = [sorted(e for e in elems if rank[e] == v) for v in sorted(set(rank.values()))]
             if [sorted(b) for b in got] != want and bad is None:
                 bad = (elems, rank, got, want)
+    # larger groups: both sides of a pivot hold several elements that are split again (seven elements, pivots taken at
+    # the start, in the middle and at the end of the group they are drawn from)
+    big = ["p", "a", "b", "c", "d", "e", "f"]
+    import random as _random
+    rnd_ = _random.Random(11)
+    rank_vectors = [list(range(7)), list(range(6, -1, -1)), [3, 0, 6, 1, 5, 2, 4], [0, 0, 1, 1, 2, 2, 3], [2, 5, 5, 0, 0, 2, 7]]
+    for _ in range(8):
+        v_ = list(range(7))
+        rnd_.shuffle(v_)
+        rank_vectors.append(v_)
+    for pivot_idx in (0, 3, 99):
+        for rv in rank_vectors:
+            n += 1
+            rank = dict(zip(big, rv))
+            got = _eval_kwik(ks, list(big), rank, pivot_idx, all_elems=big)
+            want = [sorted(e for e in big if rank[e] == v) for v in sorted(set(rank.values()))]
+            if [sorted(b) for b in got] != want and bad is None:
+                bad = (big, rank, got, want)
     if PIVOT_PROBLEMS and bad is None:
         bad = (elems, {}, PIVOT_PROBLEMS[0], "the pivot hook must receive the remaining elements")
     res.check(bad is None, rule, "_kwik_sort:partition-and-emission", ks.loc(),
@@ -283,7 +391,7 @@ HOOK_NAMES = {"pivot": "_get_pivot", "where": "_where_should_it_be", "sort": "_k
                                                                                              # them with the anchors found
 
 
-def _eval_kwik(ks, remaining: List[str], rank, pivot_idx: int = 0) -> List:
+def _eval_kwik(ks, remaining: List[str], rank, pivot_idx: int = 0, all_elems=None) -> List:
     out: List = []
     p = ks.param_names  # self, consensus, remaining_elements, mapping_element_id, positions, scoring_scheme
     depth = [0]
@@ -310,7 +418,7 @@ def _eval_kwik(ks, remaining: List[str], rank, pivot_idx: int = 0) -> List:
         return -1 if d < 0 else (1 if d > 0 else 0)
 
     env = {"self": Sym("self"), p[1]: out, p[2]: list(remaining),
-           p[3]: {e: "id_" + e for e in ["p", "a", "b", "c"]}, p[4]: Sym("POS"), p[5]: Sym("SCH")}
+           p[3]: {e: "id_" + e for e in (all_elems or ["p", "a", "b", "c"])}, p[4]: Sym("POS"), p[5]: Sym("SCH")}
     evl = Evaluator(env, funcs={"." + HOOK_NAMES["pivot"]: get_pivot, "." + HOOK_NAMES["where"]: where,
                                 "Element": lambda ev, call: "NOPIVOT"})
     evl.max_steps = 20000
